@@ -422,6 +422,14 @@ func Unpack(r io.Reader, dst string) error {
 
 // Unpack unpacks the archive data in r into directory dst.
 func (p *Packer) Unpack(r io.Reader, dst string) error {
+	// All containment checks below compare cleaned paths textually, which is
+	// only meaningful for absolute paths: relative to ".." the entry "../x"
+	// looks contained. A relative destination is therefore made absolute.
+	dst, err := filepath.Abs(dst)
+	if err != nil {
+		return fmt.Errorf("failed to make destination %q absolute: %w", dst, err)
+	}
+
 	// Track directory times and permissions so they can be restored after all files
 	// are extracted. This metadata modification is delayed because extracting files
 	// into a new directory would necessarily change its timestamps. By way of
